@@ -52,6 +52,16 @@ def new_tree(name, fmt):
 
 
 def build(tt, with_exec):
+    if with_exec == "delete-only":
+        # nothing but deletions: every move is a pre-deletion (no rename into or out of limbo)
+        for p_ in ("a", "x", "d/f"):
+            t_ = tt.trans_id_tree_path(p_)
+            tt.delete_contents(t_); tt.unversion_file(t_)
+        return
+    _build_mixed(tt, with_exec)
+
+
+def _build_mixed(tt, with_exec):
     """rename a -> a2, delete x, replace the content of k, move d/f to the top, create n; optionally flip an executable bit"""
     a = tt.trans_id_tree_path("a")
     tt.adjust_path("a2", tt.root, a)
@@ -86,7 +96,7 @@ class FaultyOS:
 tried = 0
 try:
     for fmt in ("2a", "git"):
-        for with_exec in (False, True):
+        for with_exec in (False, True, "delete-only"):
             # how many renames / deletions does the undisturbed apply perform?
             d, wt = new_tree("%s_count_%s" % (fmt, with_exec), fmt)
             probe = FaultyOS(0)
@@ -109,12 +119,19 @@ try:
                 T.os = FaultyOS(k)
                 raised = None
                 try:
-                    with wt.transform() as tt:
+                    tt = wt.transform()
+                    try:
                         build(tt, with_exec)
                         try:
                             tt.apply()
                         except BaseException as e:  # noqa
                             raised = e
+                    finally:
+                        T.os = real_os
+                        try:
+                            tt.finalize()
+                        except BaseException:  # noqa  (leftovers in limbo / pending-deletion are reported by finalize: compared below)
+                            pass
                 finally:
                     T.os = real_os
                 now = snapshot(d), versioned(wt)
